@@ -47,6 +47,7 @@ def variations(P):
     for sh in ("immediate", "one_month_delayed_shutoff", "short_delayed_shutoff", "long_delayed_shutoff", "continued"):
         V["nw_shutoff_" + sh] = dict(nw, shutoff=sh)
     V["nw_no_stored_food"] = dict(nw, stored_food="zero")
+    V["nw_baseline_nostore"] = dict(nw, ratio_stocks_untouched="baseline_no_stored_between_years")
     V["nw_dont_eat_culled"] = dict(nw, cull="dont_eat_culled")
     V["nw_intake_disabled"] = dict(nw, intake_constraints="disabled_for_humans")
     V["nw_waste_tripled"] = dict(nw, waste="tripled_prices_in_country")
@@ -151,6 +152,9 @@ def jobs(tier, seed=0):
     res.append(dict(cc="BRA", preset="nw_seaweed", options=copy.deepcopy(V["nw_seaweed"])))
     # an explicit threshold under a schedule that has none of its own
     res.append(dict(cc="ARG", preset="nw_T50", options=copy.deepcopy(V["nw_T50"])))
+    # the fourth stock regime (a buffer kept back and nothing carried between years), and a run without any initial stock
+    res.append(dict(cc="USA", preset="nw_baseline_nostore", options=copy.deepcopy(V["nw_baseline_nostore"])))
+    res.append(dict(cc="ARG", preset="nw_no_stored_food", options=copy.deepcopy(V["nw_no_stored_food"])))
     # a country whose table row has dairy herds but no national milk figure
     res.append(dict(cc="CYP", preset="net_nuclear_winter", options=copy.deepcopy(P["net_nuclear_winter"])))
     # a short horizon that ends while crops are still depressed, with demand alive in the last month
